@@ -25,6 +25,7 @@ import (
 	"github.com/pkg/errors"
 	"go.etcd.io/bbolt"
 	"strings"
+	"sync"
 )
 
 type Constrained interface {
@@ -995,6 +996,14 @@ func (index *fkConstraint) CheckIntegrity(ctx MutateContext, fix bool, errorSink
 type fkDeleteCascadeConstraint struct {
 	symbol      EntitySymbol
 	cascadeType CascadeType
+	// rows whose cascading delete is under way, by transaction. A row which references itself, or a cycle of
+	// references, leads the cascade back to a row that is already being deleted
+	cascading sync.Map
+}
+
+type cascadingRow struct {
+	tx *bbolt.Tx
+	id string
 }
 
 func (index *fkDeleteCascadeConstraint) Label() string {
@@ -1038,8 +1047,24 @@ func (index *fkDeleteCascadeConstraint) ProcessBeforeDelete(ctx *IndexingContext
 		}
 
 		if index.cascadeType == CascadeDelete {
+			// only a reference into the same store can lead back to a row which is being deleted
+			sameStore := index.symbol.GetLinkedType().GetEntityType() == targetStore.GetEntityType()
+			if sameStore {
+				row := cascadingRow{tx: ctx.Tx(), id: string(ctx.RowId)}
+				if _, found := index.cascading.LoadOrStore(row, struct{}{}); found {
+					return
+				}
+				defer index.cascading.Delete(row)
+			}
+
 			cursor := targetStore.IterateValidIds(ctx.Tx(), filter)
 			for cursor.IsValid() {
+				// a referrer which is being deleted further up the stack is taken care of there
+				if _, found := index.cascading.Load(cascadingRow{tx: ctx.Tx(), id: string(cursor.Current())}); sameStore && found {
+					cursor.Next()
+					continue
+				}
+
 				if ctx.ErrHolder.SetError(targetStore.DeleteById(ctx.Ctx, string(cursor.Current()))) {
 					return
 				}
